@@ -212,12 +212,13 @@ func c02genSession(rt *rapid.T) c02session {
 }
 
 type c02obs struct {
-	client   []string // normalised transactions received by the session client (sorted)
-	observer []string
-	xfers    []string // per transfer: hex hash of normalised received bytes / structured result
-	state    hlsim.Snapshot
-	users    []string
-	accepted bool
+	client    []string // normalised transactions received by the session client (sorted)
+	clientSeq []string // the same, in the order received: the requests of one connection are handled one after the other
+	observer  []string
+	xfers     []string // per transfer: hex hash of normalised received bytes / structured result
+	state     hlsim.Snapshot
+	users     []string
+	accepted  bool
 }
 
 func maskDatesFlat(b []byte) []byte {
@@ -372,6 +373,9 @@ func c02run(rt *rapid.T, s c02session, mk func(kind string) hlsim.Splitter) (o c
 		}
 		got = append(got, c.TakeInbox()...)
 		o.client = normAll(got)
+		for _, t := range got {
+			o.clientSeq = append(o.clientSeq, normTran(t))
+		}
 		o.observer = normAll(obs.TakeInbox())
 		us, _ := obs.UserList()
 		for _, u := range us {
@@ -437,6 +441,11 @@ func c02prop(ev *evid.Rec) func(rt *rapid.T) {
 		}
 		if d := diffStrings(base.client, part.client); d != "" {
 			rt.Fatalf("%s: the client received different transactions: %s", desc, d)
+		}
+		for i := range base.clientSeq {
+			if i < len(part.clientSeq) && base.clientSeq[i] != part.clientSeq[i] {
+				rt.Fatalf("%s: the client received the same transactions in another order: number %d is %s, one Write per message gives %s", desc, i+1, part.clientSeq[i], base.clientSeq[i])
+			}
 		}
 		if d := diffStrings(base.observer, part.observer); d != "" {
 			rt.Fatalf("%s: another user received different transactions: %s", desc, d)
